@@ -29,6 +29,8 @@ func init() {
 		rules: []func(*Ctx){
 			ruleContribOpen("C09.table"),
 			ruleOpenGuard("C09.guard"),
+			ruleOpenSkipped("C09.skip"),
+			ruleEmit("C09.route"),
 		},
 	})
 	register(&propDef{
@@ -115,5 +117,38 @@ func init() {
 		explanation: "Decides structural clauses of C12: (clear) in every exported Execute*, on every path, the first effect on each solution argument is a truncation / tree Clear, followed through the callees that receive it; (reset) every engine field written during an execution (computed from the code for clipperBase, ClipperOffset, RectClip64) has a re-initialisation proof: assigned by reset/prologue on every path, emptied by the epilogue that precedes every return, or a mode field assigned by every caller; the sorted-minima flag is cleared whenever the retained list grows; rectangle-clipper edge buckets are all emptied per path; (frozen-input) nothing reachable from an execution writes the retained Vertex/LocalMinima graph; (immutable) no library write can reach memory of a caller-supplied input slice. Identical state then implies identical results because the code is deterministic (C17).",
 		notDecided: []string{"independence of the order in which paths were added (geometric tie-breaking)", "conditionally assigned round-join step fields are argued by hand (stepSin/stepCos/stepsPerRad)", "callbacks and scale functions supplied by the caller"},
 		rules:      []func(*Ctx){ruleClearFirst("C12.clear"), ruleReset("C12.reset"), ruleFrozenInput("C12.frozen-input"), ruleImmutable("C12.immutable")},
+	})
+}
+
+func init() {
+	register(&propDef{
+		id: "C17",
+		explanation: "Decides structural clauses of C17: (det) sentence 1 completely, modulo the standard library: in the package and the reachable part of govalues/decimal there is no range over a map, goroutine, channel, select, time/rand/os/runtime/sync use, pointer-to-integer conversion or %p formatting, and no package-level variable is ever written, so equal inputs give bit-identical outputs; (cmp) the comparison closures handed to sort.Slice are strict weak orders on every ordering of their keys; (mirror) in every `switch fillRule` the Negative arm is the Positive arm with all winding operands negated, and the contribution tables are sign-mirrors — the structural form of 'all paths reversed with Positive and Negative exchanged'; (sym) the contribution table ignores the polytype for Union/Intersection/Xor (subject/clip exchange). Does NOT decide permutation/rotation/duplication invariance of the region or lattice symmetries of the sweep.",
+		notDecided: []string{"invariance under path permutation, start-vertex rotation, vertex duplication (tie-breaking in isValidAelOrder)", "path reversal under EvenOdd", "the 8 lattice symmetries (the sweep is not symmetric in Y by construction)", "horzSegSort is not antisymmetric (deviation, only region-equivalent output differences could be produced)"},
+		rules: []func(*Ctx){
+			ruleForbidden("C17.det", true),
+			ruleNoGlobalWrites("C17.det.globals"),
+			ruleLessStrict("C17.cmp", 2),
+			ruleCmp3("C17.cmp3"),
+			ruleFillRuleMirror("C17.mirror.switch", 8),
+			ruleContribSym("C17"),
+		},
+	})
+}
+
+func init() {
+	register(&propDef{
+		id: "C05",
+		explanation: "Decides structural clauses of C05: (join) offsetPoint's dispatch over JoinType builds exactly the constructor set of the property's table (Miter: miter or square by the limit test; Square: square; Bevel: bevel; Round: arc; the near-straight shortcut uses doMiter only for non-round joins; the concave arm emits perp(prev), vertex, perp(curr)); (sign) groupDelta is -delta / +delta / |delta| by (end type, pathsReversed), arcs turn with the sign of groupDelta, NewGroup strips duplicates with the right closed flag and takes the orientation from the path owning the lowest vertex; (union) the clean-up is Execute(Union, reversed ? Negative : Positive) with reverseSolution = ReverseSolution != reversed; (small) |delta| < 0.5 returns the stripped input before any constructor; (xy) every point constructed in offset.go pairs X with X and Y with Y (rotations exempted by name). Does NOT decide any distance statement (band containment, k*delta bound, arc tolerance), over-shrinking or hole growth.",
+		notDecided: []string{"containment of the (delta - tol) band and the k*delta outer bound", "arc tolerance of round joins", "over-shrinking to empty, hole growth", "the numeric thresholds of the dispatch (0.999, mitLimSqr)"},
+		rules: []func(*Ctx){
+			ruleJoinDispatch("C05.join"), ruleGroupDelta("C05.sign"), ruleOffsetUnion("C05.union"), ruleXY("C05.xy", []string{"offset.go"}, 15),
+		},
+	})
+	register(&propDef{
+		id: "C08",
+		explanation: "Decides structural clauses of C08: (sign) the sum adds and the difference subtracts the pattern point from the path point on both axes; (entry) the four exported functions pass isSum=true/false and the caller's isClosed and finish with UnionPaths64(quads, NonZero); (norm) every quad enters the result in positive orientation (as is under IsPositive64, reversed otherwise); (closed) closed paths use (delta, first predecessor) = (0, len-1), open paths (1, 0); (all) no loop iteration skips its vertex or segment; (xy) axis pairing of constructed points. Does NOT decide that the quads cover exactly the swept region, nor commutativity.",
+		notDecided: []string{"that the union of the quads equals the swept region", "sum(A,B) = sum(B,A)", "canonical-ness of the result (C02)"},
+		rules:      []func(*Ctx){ruleMinkowski("C08"), ruleXY("C08.xy", []string{"minkowski.go"}, 2)},
 	})
 }
